@@ -37,7 +37,7 @@ def body(run):
         run.cov["all_configurations_states"] = r_all.distinct
     if not rows:
         raise vf.Inconclusive("TLC emitted no rows")
-    run.log("TLC: %d states; %d rows to replay" % (run.cov["states"], len(rows)))
+    run.log("%d rows to replay" % len(rows))
     results = run.go_run(exe[0], ["-prop", "C30", "-par", "4" if q else "8"], cases=rows, timeout=3000)
     need(results, rows, "opn")
     run.absorb(results)
